@@ -111,6 +111,29 @@ def run(chk, facts, tier, only=None):
                            f"{fname}: big-number fast path must be selected exactly for (nat,nat), (int,int) and expected int / wire nat; found {got}",
                            ok_detail=str(got))
         chk.floor("big-number fast-path selectors", nb, 2)
+        # every accessor is built with the expected component types in `expect` and the wire component types in `wire`: the accessors
+        # hand these back as self.expect_type / self.wire_type for each component, and everything else trusts that labelling
+        n_style = 0
+        for k_, hh in sorted(c.hir.items()):
+            if hh.get("body") is None or not hh["span"]["file"].endswith("candid/src/de.rs"):
+                continue
+            sts = [x for x in walk(hh["body"]) if x.get("k") == "struct" and (x.get("res") or {}).get("path", "").startswith("candid::de::Style::")]
+            if not sts:
+                continue
+            ss = Sides({}, SEEDS)
+            ss.scan(hh["body"])
+            for st_ in sts:
+                fl = dict(st_["fields"])
+                sd = {n_: tuple(sorted(ss.of(e_))) for n_, e_ in fl.items() if n_ in ("expect", "wire")}
+                if not any(sd.values()):
+                    continue          # a pattern-like rebuild without provenance (Debug impl, accessors matching on self.style)
+                n_style += 1
+                chk.expect(sd.get("expect") == (1,) and sd.get("wire") == (2,), f"style-sides:{hh['name']}:{st_['res']['path'].rsplit('::', 1)[-1]}",
+                           f"{k_} builds {st_['res']['path'].rsplit('::', 1)[-1]} with `expect` derived from side(s) {sd.get('expect')} and `wire` from "
+                           f"{sd.get('wire')} (1 = expected type, 2 = wire type): a component's wire type taken from the expected type makes the "
+                           f"decoder read the bytes at the type the receiver hopes for instead of the type they were written at",
+                           where=f"{hh['span']['file']}:{st_.get('ln')}", ok_detail="expect <- expected type, wire <- wire type")
+        chk.floor("Style literals built from the two types", n_style, 5)
         # key_text_fast: both the expected and the wire key type are text
         h = c.method(r"^&mut candid::de::Deserializer", "deserialize_map", r"de::Deserializer$")
         s = Sides({}, SEEDS)
@@ -292,6 +315,8 @@ def run(chk, facts, tier, only=None):
     if only is None:
         import c09
         chk.include(c09, "C09.R1", "C08.R8", facts)     # the documented host limit (128-bit range) is decided exactly by the number kernels
+        import c10
+        chk.include(c10, "C10.R6", "C08.R9", facts)     # untyped variant decoding: accessor hint and accessor test read the same (expected) type
 
 
 def variant_paths_pat(m):
